@@ -590,13 +590,36 @@ fn judge_file(out: &mut Out, bin: &str, h: &Hist) {
     out.stat("decode1090:histories");
 }
 
-fn decode1090_stage(out: &mut Out, rng: &mut Rng) {
+fn decode1090_stage(out: &mut Out, rng: &mut Rng, thorough: bool) {
     let Some(bin) = decode1090_bin(out) else { return };
+    // fixed shapes: the shortest witnesses of the usual mistakes in the copy
+    for line in [
+        // boundary of the window: expiry == now leaves before the flush (order of the two records), expiry == now + 1 stays
+        // (stamps are multiples of 1/8 s: short decimal forms, read back exactly from the file)
+        "dedupf 375 8d406b902015a678d4d220aa4bda+,20001838ca3804+ 0:0:1 375:1:2",
+        "dedupf 376 8d406b902015a678d4d220aa4bda+,20001838ca3804+ 0:0:1 375:1:2 1000:0:3",
+        // a repetition after the window joins the group it closes; a third one opens a new group, written by the flush
+        "dedupf 400 20001838ca3804+ 0:0:1 1000:0:2 1250:0:3",
+        // the flush writes the open groups by (first arrival, frame bytes), not in arrival order
+        "dedupf 5000 8d406b902015a678d4d220aa4bda+,20001838ca3804+,5d484fdea248f5+ 2000:0:1 1000:2:2 1000:1:3 2250:1:4",
+        // an undecodable frame is grouped and never written, also by the flush
+        "dedupf 250 8d406b902015a678d4d220aa4bdb-,20001838ca3804+ 1000:0:1 1125:1:2 1500:0:3",
+        // three receptions in one group, sub-second stamps
+        "dedupf 500 20001838ca3804+,5d484fdea248f5+ 1000:0:1 1125:0:2 1250:0:3 1500:1:4",
+        // one heap entry per group: a second entry pushed by the second member would close the NEXT group of the frame early
+        "dedupf 500 20001838ca3804+,5d484fdea248f5+ 1000:0:1 1125:0:2 1500:1:3 1625:0:4 1750:0:5",
+    ] {
+        match parse_line(line) {
+            Some(h) => judge_file(out, &bin, &h),
+            None => out.notes.push(format!("bad fixed dedupf line: {line}")),
+        }
+    }
+    let maxlen = if thorough { 3usize } else { 2 };
     // time stamps are multiples of 1/8 s below 2^31 s: their decimal form is short and read back exactly
     let frames: Vec<(Vec<u8>, bool)> = [4usize, 1].iter().map(|&i| pool_frame(i)).collect();
     let grid = [1.0, 1.25, 1.5, 1.75];
     for w in [0u32, 250, 500] {
-        for len in 0..=3usize {
+        for len in 0..=maxlen {
             for code in 0..8usize.pow(len as u32) {
                 let mut c = code;
                 let mut arrivals = vec![];
@@ -608,7 +631,7 @@ fn decode1090_stage(out: &mut Out, rng: &mut Rng) {
             }
         }
     }
-    for _ in 0..1500 {
+    for _ in 0..(if thorough { 1500 } else { 150 }) {
         let nf = 1 + rng.below(5) as usize;
         let first = rng.below((POOL.len() - nf) as u64 + 1) as usize;
         let frames: Vec<(Vec<u8>, bool)> = (first..first + nf).map(pool_frame).collect();
@@ -640,7 +663,7 @@ fn decode1090_stage(out: &mut Out, rng: &mut Rng) {
         }
         judge_file(out, &bin, &Hist { w, frames, arrivals });
     }
-    out.exhaustive.push("decode1090 binary: all files of <= 3 lines over (DF4+1 byte, DF4) x {1,1.25,1.5,1.75} s x windows {0,250,500} ms".into());
+    out.exhaustive.push(format!("decode1090 binary: all files of <= {maxlen} lines over (DF4+1 byte, DF4) x {{1,1.25,1.5,1.75}} s x windows {{0,250,500}} ms"));
 }
 
 // ---------------------------------------------------------------------------------------------
@@ -907,9 +930,6 @@ pub fn run(out: &mut Out, rng: &mut Rng, thorough: bool) {
         judge(out, &mut real, &h, k % 2 == 1);
     }
     // --- decode1090's inline copy, through the binary built from the tree under test
-    if thorough {
-        decode1090_stage(out, rng);
-    } else {
-        out.notes.push("decode1090's inline copy of the loop is exercised in the thorough tier only".into());
-    }
+    // (cargo's own cache under .build/decode-target: nothing is recompiled when the tree did not change)
+    decode1090_stage(out, rng, thorough);
 }
